@@ -57,9 +57,12 @@ CLAIMED['C04'] = (
 CLAIMED['C02'] = (
     'for every leaf parsable class of the current tree: every byte string up to a calibrated length (<= 4 quick, 6 '
     'thorough), every value of single bytes (quick: 2 positions; thorough: every position, plus 2-byte windows) of '
-    'accepted seed vectors harvested from the pinned suite, every proper prefix of those vectors, text formats behind a '
-    'concrete required prefix, through parse_immutable, parse_mutable(bytearray) and parse_exact_size: the solver '
-    'shows that no exception other than NotEnoughData, TooMuchData, InvalidValue, InvalidType escapes',
+    'accepted seed vectors harvested from the pinned suite, text and key formats behind a concrete required prefix '
+    '(incl. values handed to asn1crypto / idna), through parse_immutable, parse_mutable(bytearray) and '
+    'parse_exact_size: the solver shows that no exception other than NotEnoughData, TooMuchData, InvalidValue, '
+    'InvalidType escapes. Natively: every proper prefix of the seed vectors, ~60 hostile well-formed text values '
+    '(overflowing magnitudes, dates at the ends of the calendar), and all 256 values of every single-byte window the '
+    'engine left undecided',
     'exceptions raised while cryptodatahub formats InvalidValue messages are outside (X3 stub); text classes in the '
     'quick tier range over 22 boundary characters per window instead of 256; classes that do not exhaust within the '
     'cap are reported INCONCLUSIVE and not counted as decided', '5 C02')
@@ -68,7 +71,8 @@ CLAIMED['C01'] = (
     'K: objects of ~40 message/record/extension/key-exchange/DNS/RDP/MySQL/OpenVPN classes built through the real '
     'constructors from symbolic integers (full field width), symbolic opaque bytes and every enum member: compose is '
     'accepted by the same class, consumes every byte and yields a field-by-field equal object. P: for every seeded class '
-    'the same chain on the objects parsed from single-byte windows of accepted vectors',
+    'the same chain on the objects parsed from single-byte windows of accepted vectors. Natively: objects built '
+    'with every defaulted constructor argument left out, SSH banner lengths 250..255',
     'opaque bytes <= 3 (quick) / 4 (thorough); one symbolic enum dimension per shard; quick tier: three index ranges '
     'per large enum and two window positions per class; X.509 objects only through seed vectors; deep_eq compares '
     'library objects field by field and third-party values with their own ==', '5 C01')
